@@ -159,6 +159,55 @@ def procAttrs (proc : Node → Ty → ProcRes) : Node → List Param → Except 
             | .error e => .error e
             | .ok (n'', tr) => .ok (n'', o.trace ++ tr)
 
+/-- an enum member spelt like a boolean is read as a string, not as a bool -/
+def enumRetag (d : ClassDef) (n : Node) : Node :=
+  if d.isEnum && n.tag == tBool then n.setTag tStr else n
+
+/-- the savorize step of `__process_node` for the recognised type `R` -/
+def savStep (env : Env) (fuel : Nat) (n : Node) (R : Ty) : Except LoadErr (Node × List String) :=
+  match R with
+  | .cls c =>
+    (match env.find c with
+     | none => .ok (n, [])
+     | some d =>
+       match savorize env fuel (enumRetag d n) d with
+       | .ok r => .ok r
+       | .error _ => .error (errAt (enumRetag d n).mark))
+  | _ => .ok (n, [])
+
+/-- the recursion step of `__process_node`: items, key/value pairs or class attributes -/
+def subStep (env : Env) (proc : Node → Ty → ProcRes) (R : Ty) (n2 : Node) :
+    Except LoadErr (Node × List String) :=
+  match R with
+  | .seq _ item =>
+    (match n2 with
+     | .seq t xs m =>
+       if t != tSeq then .error (errAt n2.mark)
+       else match procItems proc item xs.toList with
+         | .error e => .error e
+         | .ok (ys, tr') => .ok (.seq t (Nodes.ofList ys) m, tr')
+     | _ => .error (errAt n2.mark))
+  | .map _ K V =>
+    (match n2 with
+     | .map t ps m =>
+       if t != tMap then .error (errAt n2.mark)
+       else match procPairs proc K V ps.toList with
+         | .error e => .error e
+         | .ok (qs, tr') => .ok (.map t (Pairs.ofList qs) m, tr')
+     | _ => .error (errAt n2.mark))
+  | .cls c =>
+    (match env.find c with
+     | some d => if d.isPlain && n2.isMapNode then procAttrs proc n2 d.params else .ok (n2, [])
+     | none => .ok (n2, []))
+  | _ => .ok (n2, [])
+
+/-- the final retagging of `__process_node` -/
+def tagStep (env : Env) (tbl : List Entry) (R : Ty) (n3 : Node) (trace : List String) : ProcRes :=
+  if R == .any then .ok ⟨stripTags tbl n3, trace⟩
+  else match typeToTag env R with
+    | some tag => .ok ⟨n3.setTag tag, trace⟩
+    | none => .error (.other "RuntimeError")
+
 def processNode (env : Env) (tbl : List Entry) : Nat → Node → Ty → ProcRes
   | 0, _, _ => .error .fuel
   | fuel + 1, n, T =>
@@ -167,53 +216,12 @@ def processNode (env : Env) (tbl : List Entry) : Nat → Node → Ty → ProcRes
     | .ok (ts, leaves) =>
       match ts with
       | [R] =>
-        -- savorize
-        let sav : Except LoadErr (Node × List String) :=
-          match R with
-          | .cls c =>
-            (match env.find c with
-             | none => .ok (n, [])
-             | some d =>
-               let n1 := if d.isEnum && n.tag == tBool then n.setTag tStr else n
-               match savorize env (fuel + 1) n1 d with
-               | .ok r => .ok r
-               | .error _ => .error (errAt n1.mark))
-          | _ => .ok (n, [])
-        match sav with
+        match savStep env (fuel + 1) n R with
         | .error e => .error e
         | .ok (n2, tr) =>
-          let proc := processNode env tbl fuel
-          -- recurse
-          let sub : Except LoadErr (Node × List String) :=
-            match R with
-            | .seq _ item =>
-              (match n2 with
-               | .seq t xs m =>
-                 if t != tSeq then .error (errAt n2.mark)
-                 else match procItems proc item xs.toList with
-                   | .error e => .error e
-                   | .ok (ys, tr') => .ok (.seq t (Nodes.ofList ys) m, tr')
-               | _ => .error (errAt n2.mark))
-            | .map _ K V =>
-              (match n2 with
-               | .map t ps m =>
-                 if t != tMap then .error (errAt n2.mark)
-                 else match procPairs proc K V ps.toList with
-                   | .error e => .error e
-                   | .ok (qs, tr') => .ok (.map t (Pairs.ofList qs) m, tr')
-               | _ => .error (errAt n2.mark))
-            | .cls c =>
-              (match env.find c with
-               | some d => if d.isPlain && n2.isMapNode then procAttrs proc n2 d.params else .ok (n2, [])
-               | none => .ok (n2, []))
-            | _ => .ok (n2, [])
-          match sub with
+          match subStep env (processNode env tbl fuel) R n2 with
           | .error e => .error e
-          | .ok (n3, tr') =>
-            if R == .any then .ok ⟨stripTags tbl n3, tr ++ tr'⟩
-            else match typeToTag env R with
-              | some tag => .ok ⟨n3.setTag tag, tr ++ tr'⟩
-              | none => .error (.other "RuntimeError")
+          | .ok (n3, tr') => tagStep env tbl R n3 (tr ++ tr')
       | _ => .error (.recognition leaves)
 
 end YatimlModel
